@@ -118,7 +118,18 @@ EnumCases ==
     text |-> "enum A {" \o EnumVals("a", nA) \o "}; enum B {" \o EnumVals("b", nB) \o "}" \o (IF incl THEN " | A" ELSE "") \o "; B x1; A y; x1 == y; ",
     var |-> "x1", dom0 |-> <<>>, allowed |-> <<>>, sat |-> IF incl THEN 1 ELSE 0] : nA \in 1..3, nB \in 1..2, incl \in BOOLEAN}
 
-Cases == {ObjCase(c) : c \in {x \in RawCases : WellTyped(x)}} \cup HolderCases \cup RangeCases \cup EnumCases
+\* a variable of a supertype passed to a predicate parameter of a subtype: the variable is pruned to the instances of the
+\* subtype and IS the parameter (what the rule says about the parameter holds for the variable)
+DowncastCases ==
+  {[kind |-> "obj", fam |-> "downcast",
+    text |-> "class A { real id; A(real id) : id(id) {} } class B : A { B(real id) : A(id) {} } "
+             \o "B i1 = new B(1.0); B i2 = new B(2.0); A i3 = new A(3.0); A i4 = new A(" \o Num(k4) \o "); predicate P(B p) { p.id == " \o Num(k) \o "; } "
+             \o "A v; goal g = new P(p:v); " \o (IF k2 = 0 THEN "" ELSE "v.id == " \o Num(k2) \o "; "),
+    var |-> "v", dom0 |-> <<"i1", "i2", "i3", "i4">>,
+    allowed |-> SetToSeq({IName(j) : j \in {i \in {1, 2} : i = k /\ (k2 = 0 \/ k2 = i)}}),
+    sat |-> IF k \in {1, 2} /\ (k2 = 0 \/ k2 = k) THEN 1 ELSE 0] : k \in 1..3, k2 \in 0..3, k4 \in {1, 2}}
+
+Cases == {ObjCase(c) : c \in {x \in RawCases : WellTyped(x)}} \cup HolderCases \cup RangeCases \cup EnumCases \cup DowncastCases
 ASSUME ndJsonSerialize(Out, SetToSeq(Cases))
 ASSUME PrintT(<<"GENERATED", Cardinality(Cases)>>)
 
